@@ -603,7 +603,9 @@ class Engine:
                 n = int(m.group(1))
             return Seq([v] * n)
         if k == "closure":
-            return Closure(rv[1], [self.eval_operand(st, fid, body, o) for (_, o) in rv[2]])
+            caps = [o for (_, o) in rv[2]]
+            caps = self._complete_closure_captures(body, rv[1], caps)
+            return Closure(rv[1], [self.eval_operand(st, fid, body, o) for o in caps])
         if k == "adt":
             path = mirmod.strip_generics(rv[1])
             segs = path.split("::")
@@ -1027,6 +1029,38 @@ class Engine:
         return groups
 
     # ------------------------------------------------------------ calls
+    def _complete_closure_captures(self, body, name, caps):
+        """rustc's MIR pretty-printer zips a closure aggregate's operands with the captured *root variables*, so a closure that captures
+        several disjoint fields of one variable (`self.a`, `self.b`) is printed with its first operand only.  The operands are the
+        consecutively numbered temporaries that follow the printed one; they are recovered here and checked against the capture types
+        the closure body declares (`debug x => (*(_1.N: T))`).  Anything that does not match is unsupported, never guessed."""
+        if self.closure_index is None:
+            self.build_closure_index()
+        cname = self.closure_index.get(name)
+        if cname is None or not caps:
+            return caps
+        cb = self.mir.bodies[cname]
+        need = {}
+        for ln in cb.lines:
+            for m in re.finditer(r"\(_1\.(\d+): ([^()]*(?:\([^()]*\))?[^()]*)\)", ln):
+                need.setdefault(int(m.group(1)), m.group(2).strip())
+        n = (max(need) + 1) if need else 0
+        if n <= len(caps):
+            return caps
+        first = caps[0]
+        loc0 = getattr(first[1], "local", None) if isinstance(first, tuple) and len(first) == 2 else None
+        if len(caps) != 1 or first[0] not in ("move", "copy") or not loc0 or getattr(first[1], "proj", None):
+            raise Unsupported(f"closure aggregate printed with {len(caps)} of {n} captures")
+        k0 = int(loc0[1:])
+        out = [first]
+        for j in range(1, n):
+            loc = f"_{k0 + j}"
+            ty = body.local_types.get(loc)
+            if ty is None or (j in need and re.sub(r"\s+", "", ty) != re.sub(r"\s+", "", need[j])):
+                raise Unsupported(f"closure capture {j} of {name}: cannot recover operand ({loc}: {ty} vs {need.get(j)})")
+            out.append(("move", mirmod.parse_place(loc)))
+        return out
+
     def build_closure_index(self):
         idx = {}
         for name, b in self.mir.bodies.items():
